@@ -150,7 +150,17 @@ class TokenStub(NativeObj):
         return f"<{self.type}={self.value!r}@{self.pos}>"
 
 
-_NATIVE_TYPES = (NativeObj, re.Pattern, re.Match)
+class _ModuleNS:
+    """`import itertools` in the module under analysis: attribute access goes to the real (pure) library."""
+
+    def __init__(self, lib):
+        self._lib = lib
+
+    def __getattr__(self, name):
+        return getattr(self._lib, name)
+
+
+_NATIVE_TYPES = (NativeObj, re.Pattern, re.Match, _ModuleNS)
 
 _STR_METHODS = {"upper", "lower", "startswith", "endswith", "replace", "count", "strip", "lstrip", "rstrip", "join",
                 "isdigit", "isalpha", "isalnum", "isspace", "isidentifier", "isupper", "islower", "find", "rfind", "index",
@@ -396,6 +406,9 @@ class FlowEvaluator(Evaluator):
                     raise AttributeError(f"NoneType object has no attribute {e.attr}")
                 if isinstance(base, tuple) and e.attr in getattr(base, "_fields", ()):
                     return getattr(base, e.attr)              # NamedTuple of the repository (minieval.namedtuple_of)
+                if isinstance(base, (str, tuple, frozenset, bytes)) and (e.attr in ("__contains__", "__getitem__", "__len__", "__eq__")
+                                                                          or (isinstance(base, str) and e.attr in _STR_METHODS)):
+                    return getattr(base, e.attr)              # a bound method of an immutable builtin value, used as a callable
                 raise Unsupported(f"attribute {e.attr} on {type(base).__name__}")
             return super().expr(e, env)
         if isinstance(e, (ast.Tuple, ast.List, ast.Set)):
@@ -702,6 +715,9 @@ _STRING_MODULE = {k: getattr(_string, k) for k in ("ascii_letters", "ascii_lower
 _STUBS = {"Error": ErrorStub, "Highlight": HighlightStub, "Token": TokenStub}
 
 
+_PURE_STDLIB = ("itertools", "functools", "operator", "collections", "string")
+
+
 class LexerSim:
     """One Lexer instance over a stub File with the given source text."""
 
@@ -790,6 +806,14 @@ class LexerSim:
             if imp[1] == "cast":
                 return lambda t, v: v
             return object()
+        if imp is not None and imp[0] in _PURE_STDLIB:
+            # standard-library helpers that are pure functions of their arguments: evaluated natively
+            import importlib
+            lib = importlib.import_module(imp[0])
+            if imp[1] is None:
+                return _ModuleNS(lib)
+            if hasattr(lib, imp[1]):
+                return getattr(lib, imp[1])
         raise KeyError(name)
 
     def _all_bases(self, cname: str):
